@@ -4,7 +4,7 @@ import os, json
 import vlib
 
 TIERS = {
-    "quick": dict(runs=40, steps=70, depth=4, maxnodes=5000, mdepth=8, sweepmax=40, simnum=25,
+    "quick": dict(runs=60, steps=70, depth=4, maxnodes=5000, mdepth=8, sweepmax=40, simnum=25,
                   exh=[(2, 5, 1, 1, "{5}"), (1, 4, 1, 1, "{4}"), (3, 6, 1, 1, "{2, 6}")], adv=[(1, 4, 2, 3, "{4}")],
                   sim=[(2, 5, 1, 1, "{3, 5}", 16), (3, 7, 1, 1, "{4, 7}", 14)]),
     "thorough": dict(runs=600, steps=120, depth=6, maxnodes=60000, mdepth=10, sweepmax=400, simnum=200,
@@ -88,9 +88,10 @@ def run(c, need):
     tr = dict(fails=[tuple(x) for x in res["fails"]], stats=res["stats"])
     c.judge(tr, logf)
     st = res["stats"]
-    for k in need:
-        if st.get(k, 0) == 0:
-            raise vlib.NoVerdict("vacuous run: antecedent counter %s = 0 (%s)" % (k, st))
+    if not c.violations:  # a formula false on a real-code state is a verdict whatever the coverage; vacuity only guards an all-green result
+        for k in need:
+            if st.get(k, 0) == 0:
+                raise vlib.NoVerdict("vacuous run: antecedent counter %s = 0 (%s)" % (k, st))
     nodes = vlib.read_log(logf)
     pick = [n for n in nodes if n["res"].get("ok") and n["a"] not in ("Init", "Block", "Price")][:400]
     c.samples = [dict(a=n["a"], args=n["args"], res=n["res"]) for n in pick[:: max(1, len(pick) // 6)]][:6]
